@@ -647,7 +647,9 @@ def r3_counters(ctx):
                     "counted or counted where none happens" % f.key)
     f = ctx.method("Compute", "numOps")
     src = " ".join(text(s) for s in f.body).replace(" ", "")
-    if "metric='payload_'+op" in src and "dump['Compute'][metric]" in src:
+    okn = any(pat.inline(ctx, f, r.value).replace(" ", "") ==
+              "dump['Compute']['payload_'+op]" for r in pat.returns(f))
+    if okn:
         ctx.ok("C15.R3", f, f.node, "numOps reads the payload_<op> counter",
                text_="Compute.numOps")
     else:
@@ -794,13 +796,22 @@ def r6_ticks(ctx):
         loop = loop[0]
         g = cfg_of(f, assert_edges=False)
 
+        cv = rv = None
+        for n_ in f.own_nodes():
+            if isinstance(n_, ast.Assign) and isinstance(n_.value, ast.Call) and \
+                    text(n_.value.func) == "_prep_metrics_inc" and \
+                    isinstance(n_.targets[0], ast.Tuple) and len(n_.targets[0].elts) == 2:
+                cv, rv = [text(e) for e in n_.targets[0].elts]
+        ctx.require(cv and rv, "C15.R6: %s does not obtain (collecting, rank) from "
+                    "_prep_metrics_inc" % name)
+
         def tick_calls(meth):
             out = []
             for c in pat.calls(f, name="Metrics." + meth):
                 gs = {(text(t).replace(" ", ""), pol)
                       for t, pol in atomic_guards(enclosing_stmt(c))}
-                if ("is_collecting", True) in gs and ("tick", True) in gs and \
-                        c.args and text(c.args[0]) == "rank":
+                if (cv, True) in gs and ("tick", True) in gs and \
+                        c.args and text(c.args[0]) == rv:
                     out.append(c)
             return out
         reg = [c for c in tick_calls("registerRank") if not is_within(c, loop)
